@@ -247,21 +247,37 @@ func TestVerifC12(t *testing.T) {
 				cs.observe("dir", dir)
 				thr := 0.8
 				loaded := NewClassifier(thr)
+				built := NewClassifier(thr)
+				if ti%2 == 1 {
+					// the classifier already holds documents: one under a key that a file of
+					// the tree has too (with ANOTHER text - loading replaces it, as AddContent
+					// does), one under a key of its own (it stays)
+					for _, c := range []*Classifier{loaded, built} {
+						c.AddContent("License", "PreExisting", "own.txt", []byte("this text was registered before the directory was loaded and stays as it is"))
+						for _, f := range files {
+							seg := strings.Split(f.rel, "/")
+							if len(seg) == 3 && strings.HasSuffix(f.rel, "txt") {
+								c.AddContent(seg[0], seg[1], seg[2], []byte("an older revision of this file with quite different words "+f.rel))
+								break
+							}
+						}
+					}
+					e.count("loads_into_populated_classifier", 1)
+				}
 				err := loaded.LoadLicenses(dir) // a panic is caught by the case runner
 				os.Chdir(origWD)
 				e.count("loadlicenses_calls", 1)
 				if sp == "missing" || sp == "empty-string" || sp == "below-a-file" {
 					// nothing can be walked: no panic (caught by the runner), nothing loaded; an
 					// error return is acceptable
-					if len(loaded.docs) != 0 {
-						cs.violation("loaded-from-nowhere", "dir=%q does not name a directory but %d documents were loaded", dir, len(loaded.docs))
+					if len(loaded.docs) != len(built.docs) {
+						cs.violation("loaded-from-nowhere", "dir=%q does not name a directory but %d documents were loaded", dir, len(loaded.docs)-len(built.docs))
 						return
 					}
 					cs.nontrivial(gen, ti)
 					return
 				}
 				// expected: *txt files at depth exactly 3
-				built := NewClassifier(thr)
 				expect := map[string]bool{}
 				var deeper, dirtxt bool
 				for _, f := range files {
